@@ -225,7 +225,8 @@ Definition redirect_url (strip : list (string * string)) (r : redirect_rule)
 
 (* url.URL.String for a URL with a scheme, whose path is empty or starts with "/" and needs no escaping *)
 Definition url_string (u : url_parts) : string :=
-  u_scheme u ++ "://" ++ u_host u ++ u_path u ++ (if String.eqb (u_query u) "" then "" else "?" ++ u_query u).
+  u_scheme u ++ ":" ++ (if andb (String.eqb (u_host u) "") (String.eqb (u_path u) "") then "" else "//") ++
+  u_host u ++ u_path u ++ (if String.eqb (u_query u) "" then "" else "?" ++ u_query u).
 
 (* ------------------------------------------------------------------ correspondence cases *)
 Fixpoint hmap_sub (a b : hmap) : bool :=
@@ -264,13 +265,29 @@ Definition rdr_case_ok (k : rdr_case) : bool :=
       end
   end.
 
-Inductive ra_case := CFin (k : fin_case) | CResp (k : resp_case) | CRdr (k : rdr_case).
-Definition ra_case_ok (vf df : bool) (k : ra_case) : bool :=
-  match k with CFin k => fin_case_ok vf df k | CResp k => resp_case_ok k | CRdr k => rdr_case_ok k end.
+(* the local reply chooseHost prepares for a redirect route: configuration, current scheme / host / path / query, then
+   the Go results: status code and location header *)
+Definition url_case := (redirect_cfg * (string * string * string * string) * (nat * string))%type.
+Definition url_case_ok (strip : list (string * string)) (k : url_case) : bool :=
+  match k with
+  | (cfg, (cs, ch, cp, cq), (status, location)) =>
+      match make_redirect cfg with
+      | None => false
+      | Some r => andb (Nat.eqb (rr_code r) status) (String.eqb (url_string (redirect_url strip r cs ch cp cq)) location)
+      end
+  end.
 
-Fixpoint ra_mismatches_from (vf df : bool) (i : nat) (l : list ra_case) : list nat :=
+Inductive ra_case := CFin (k : fin_case) | CResp (k : resp_case) | CRdr (k : rdr_case) | CUrl (k : url_case).
+Definition ra_case_ok (vf df : bool) (strip : list (string * string)) (k : ra_case) : bool :=
+  match k with
+  | CFin k => fin_case_ok vf df k | CResp k => resp_case_ok k | CRdr k => rdr_case_ok k | CUrl k => url_case_ok strip k
+  end.
+
+Fixpoint ra_mismatches_from (vf df : bool) (strip : list (string * string)) (i : nat) (l : list ra_case) : list nat :=
   match l with
   | [] => []
-  | k :: l' => if ra_case_ok vf df k then ra_mismatches_from vf df (S i) l' else i :: ra_mismatches_from vf df (S i) l'
+  | k :: l' => if ra_case_ok vf df strip k then ra_mismatches_from vf df strip (S i) l'
+               else i :: ra_mismatches_from vf df strip (S i) l'
   end.
-Definition ra_mismatches (vf df : bool) (l : list ra_case) : list nat := ra_mismatches_from vf df 0 l.
+Definition ra_mismatches (vf df : bool) (strip : list (string * string)) (l : list ra_case) : list nat :=
+  ra_mismatches_from vf df strip 0 l.
